@@ -33,6 +33,10 @@ type Stats struct {
 	ChoicePoints  int
 }
 
+// TeardownLeaks counts managed goroutines that were still parked when the teardown of their
+// execution gave up waiting for them (they are leaked; the execution's verdict stands).
+var TeardownLeaks int64
+
 // executionWatchdog bounds one execution (which normally takes well under a second).
 const executionWatchdog = 240 * time.Second
 
@@ -72,7 +76,7 @@ func run(opts Options, prefix []int, cache map[[2]uint64]int8, body func()) (*Ex
 	}
 	x.mu.Unlock()
 	if atomic.LoadInt32(&x.live) > 0 {
-		unwind := 180 * time.Second
+		unwind := 60 * time.Second
 		if x.outcome.Kind == "harness-stuck" {
 			unwind = 2 * time.Second // the blocked goroutine cannot unwind anyway; it is leaked
 		}
@@ -82,10 +86,11 @@ func run(opts Options, prefix []int, cache map[[2]uint64]int8, body func()) (*Ex
 			select {
 			case <-x.idle:
 			case <-timer.C:
-				if x.outcome.Kind != "harness-stuck" {
-					x.outcome.Detail = fmt.Sprintf("%d goroutines did not unwind", atomic.LoadInt32(&x.live))
-				}
-				x.outcome.Kind = "harness-stuck"
+				// The verdict of this execution was reached before the teardown began; goroutines
+				// that do not unwind in time (a heavily loaded machine, a poison message that
+				// lost the race against a regular wake-up) stay parked and are leaked. That is
+				// a resource matter, not a reason to distrust the verdict: it is counted.
+				atomic.AddInt64(&TeardownLeaks, int64(atomic.LoadInt32(&x.live)))
 				break wait
 			}
 		}
